@@ -66,12 +66,34 @@ pub fn has_na(p: &Program) -> bool {
                 | Op::AtomWithMut { .. }
                 | Op::AtomUnsyncLoad { .. }
                 | Op::LazyCellRead { .. }
+                | Op::PanicInCellMut { .. }
+                | Op::PanicInAtomMut { .. }
         )
     }) || p.n_arcs() > 0
 }
 
 /// The shared oracle. Returns the verdict (labels/nontrivial left to the caller) and the data.
 pub fn evaluate(case: &Case, v: &mut Verdict) -> Result<ScEval, Verdict> {
+    let sc = reference(case, v)?;
+    let p = &case.prog;
+    let run = interp::collect(p, &case.cfg, true);
+    v.loom_iters = run.report.iters as u64;
+    if run.report.capped {
+        return Err(Verdict::skip("capped"));
+    }
+    let l: BTreeSet<Outcome> = run.outcomes.keys().cloned().collect();
+    Ok(ScEval { sc, l, panic: run.report.panic.clone(), iters: run.report.iters, has_atomics: has_atomics(p), has_na: has_na(p), records: run.records })
+}
+
+/// Build the comparison data from a run that happened elsewhere (a child process).
+pub fn from_parts(case: &Case, sc: refsc::ScResult, iters: usize, panic: Option<String>, records: Vec<interp::IterRec>) -> ScEval {
+    let p = &case.prog;
+    let l: BTreeSet<Outcome> = records.iter().filter(|r| !r.aborted).map(|r| r.results.clone()).collect();
+    ScEval { sc, l, panic, iters, has_atomics: has_atomics(p), has_na: has_na(p), records }
+}
+
+/// The R-SC exploration of the case's program.
+pub fn reference(case: &Case, v: &mut Verdict) -> Result<refsc::ScResult, Verdict> {
     let p = &case.prog;
     if let Err(e) = p.well_formed() {
         return Err(Verdict::skip(&format!("ill-formed: {}", e)));
@@ -93,13 +115,7 @@ pub fn evaluate(case: &Case, v: &mut Verdict) -> Result<ScEval, Verdict> {
         return Err(Verdict::skip(&format!("ORACLE-BUG: {}", e)));
     }
     v.ref_states = sc.states as u64;
-    let run = interp::collect(p, &case.cfg, true);
-    v.loom_iters = run.report.iters as u64;
-    if run.report.capped {
-        return Err(Verdict::skip("capped"));
-    }
-    let l: BTreeSet<Outcome> = run.outcomes.keys().cloned().collect();
-    Ok(ScEval { sc, l, panic: run.report.panic.clone(), iters: run.report.iters, has_atomics: atom, has_na: na, records: run.records })
+    Ok(sc)
 }
 
 /// Compare; on discrepancy returns Some((kind, message)).
